@@ -1,4 +1,5 @@
 import Driver.KV
+import Driver.Codec
 open Driver
 
 structure World where
@@ -10,7 +11,10 @@ def step (w : World) (line : String) : World × String :=
   | op :: args =>
     match kvStep w.kv op args with
     | some (kv', out) => ({ w with kv := kv' }, out)
-    | none => (w, "bad-op")
+    | none =>
+      match codecStep op args with
+      | some out => (w, out)
+      | none => (w, "bad-op")
 
 partial def loop (hin hout : IO.FS.Stream) (w : World) : IO Unit := do
   let line ← hin.getLine
